@@ -86,7 +86,7 @@ async def _client_main(case: dict) -> dict:
         await asyncio.sleep(0)
     handled_at_call = res["handled"]
     user_space = res["fed"] - len(aio_transport.inbox) - handled_at_call * f
-    bound = (user_space + PROTOCOL_BUFFER + 2 * max(case["max_recv_size"], 65536 if case["buffered"] else 0)) // f + 10
+    bound = 2 * max(case["max_recv_size"], 65536 if case["buffered"] else 0) // f + 10
     verdict: dict[str, Any] = {"handled_at_call": handled_at_call, "user_space": user_space, "bound": bound}
     if case["op"] == "client-task-cancel":
         task.cancel()
@@ -125,7 +125,7 @@ async def _main(case: dict) -> dict:
     backend = VerifBackend()
     f = case["frame"]
     frame = b"x" * (f - 1) + b"\n"
-    res: dict[str, Any] = {"handled": 0, "ended": [], "fed": 0, "scope": None, "bad": 0}
+    res: dict[str, Any] = {"handled": 0, "ended": [], "fed": 0, "scope": None, "bad": 0, "empty_polls": 0}
 
     class Handler(AsyncStreamRequestHandler):  # type: ignore[type-arg]
         async def handle(self, client: Any) -> Any:
@@ -138,8 +138,26 @@ async def _main(case: dict) -> dict:
                     res["ended"].append("scope-left")
                     await client.aclose()
                     return
+                style = case.get("handler_style", "plain")
                 while True:
-                    await self._one(client, (yield))
+                    if style == "plain":
+                        request = yield
+                    else:
+                        # polling handlers: "take a request if there is one, otherwise do something else for a moment"
+                        try:
+                            if style == "poll-yield0":
+                                request = yield 0
+                            elif style == "poll-backend0":
+                                with backend.timeout(0):
+                                    request = yield
+                            else:
+                                async with asyncio.timeout(0):
+                                    request = yield
+                        except TimeoutError:
+                            res["empty_polls"] += 1
+                            await asyncio.sleep(0)
+                            continue
+                    await self._one(client, request)
             except GeneratorExit:
                 res["ended"].append("GeneratorExit")
                 raise
@@ -180,16 +198,27 @@ async def _main(case: dict) -> dict:
 
     feed_task = asyncio.create_task(feeder())
     # warm-up: let the flood establish itself
+    warm_ticks = 0
     while res["handled"] < case["warmup"]:
         await asyncio.sleep(0)
+        warm_ticks += 1
         if serve_task.done():
             raise HarnessError(f"server ended during warm-up: {serve_task!r}")
+        if warm_ticks > 100_000:
+            raise Violation(
+                "no-progress",
+                f"the handler ({case.get('handler_style', 'plain')}) received {res['handled']} of the first {case['warmup']} requests in 100000 loop "
+                f"iterations although {res['fed']} bytes were sent ({res['empty_polls']} empty polls)",
+                handler_style=case.get("handler_style", "plain"),
+            )
     for _ in range(case["extra_ticks"]):
         await asyncio.sleep(0)
 
     handled_at_call = res["handled"]
     user_space = res["fed"] - len(aio_transport.inbox) - handled_at_call * f
-    bound = (user_space + PROTOCOL_BUFFER + 2 * max(case["max_recv_size"], 65536 if case["buffered"] else 0)) // f + 10
+    # what the task has already taken from the transport (at most one receive buffer) may still be handled, plus one more
+    # receive (a cancellation is delivered at a checkpoint: the task may be past the one of the receive in progress)
+    bound = 2 * max(case["max_recv_size"], 65536 if case["buffered"] else 0) // f + 10
     verdict.update(handled_at_call=handled_at_call, user_space=user_space, bound=bound)
 
     op = case["op"]
@@ -258,7 +287,7 @@ def run(case: dict) -> Outcome:
             "the cancellation is postponed by every checkpoint of the client task for as long as the peer stays ahead",
             **detail,
         )
-    classes = [f"op-{case['op']}", "buffered" if case["buffered"] else "copying", "echo" if case["echo"] else "silent"]
+    classes = [f"op-{case['op']}", "buffered" if case["buffered"] else "copying", "echo" if case["echo"] else "silent", f"handler-{case.get('handler_style', 'plain')}"]
     classes.append("ended-" + (v["ended"][0] if v["ended"] else "none"))
     ahead = v["user_space"] > 2 * case["max_recv_size"]
     classes.append("peer-ahead" if ahead else "reader-keeps-up")
@@ -279,6 +308,7 @@ def st_case(draw: st.DrawFn, tier: str) -> dict:
         "max_recv_size": draw(st.sampled_from([16, 256, 4096, 16384, 65536])),
         "warmup": draw(st.integers(1, 40)),
         "extra_ticks": draw(st.integers(0, 7)),
+        "handler_style": draw(st.sampled_from(["plain", "plain", "poll-yield0", "poll-backend0"])),
     }
 
 
